@@ -89,7 +89,7 @@ def monitor(cfg, devtab, consts, word, tgts, res):
 
 
 def run(ctx, V):
-    proofs_ok = vlib.proof_gate(ctx, V, extract=["Extract/ExEnqueue.vo"])
+    proofs_ok = vlib.proof_gate(ctx, V, extract=["Extract/ExEnqueue.vo", "Extract/ExDaemon.vo"])
     consts = pmgen.load_genconsts(ctx.coq)
     for k, v in pmgen.INDEX.items():
         if consts.get(k) != v:
@@ -160,6 +160,66 @@ def run(ctx, V):
             strip = lambda s: s
             if not bad and strip(line) != strip(m):
                 V.tie_broken("correspondence", "R-ENQ", "impl: %s\nmodel: %s" % (line, m), case=dict(config=cfg.text(), request="%s %s" % (w, ",".join(t))))
+    whole_path(ctx, V)
+
+
+def whole_path(ctx, V):
+    """the whole path client line -> host list -> enqueue -> script bytes at the device, on pmsim (the real powermand under the
+    virtual OS): the plugs a simulated device is told to switch must belong to nodes the client named (pmcheck.mon_c01, ground
+    truth kept by the simulated devices), also for request lines padded with blanks to the protocol's length limit; every
+    run is replayed through Model/Daemon.v (R-SIM)."""
+    import pmsim, pmcheck, C04
+    exe = pmsim.build(ctx)
+    consts = pmgen.load_genconsts(ctx.coq)
+    linemax = consts.get("CP_LINEMAX", 131072)
+
+    def gen(rng, style="healthy"):
+        sc = pmcheck.gen_scenario(rng, style=style)
+        nodes = sc.cfg.all_nodes()
+        pairs = [(a, b) for a in nodes for b in nodes if b.startswith(a) and len(b) == len(a) + 1]
+        r = rng.random()
+        if r < 0.5 and pairs:
+            # a request whose LAST target has a valid shorter prefix, padded with leading blanks so that a line buffer of
+            # CP_LINEMAX bytes would cut exactly the last character of that name (and the line end)
+            a, b = rng.choice(pairs)
+            w = rng.choice(["on", "off", "cycle"])
+            data = ("%s %s\r\n" % (w, b)).encode()
+            tot = linemax + 2 + rng.choice([0, 0, 0, 1, -1])
+            k = rng.randrange(sc.tags["ncli"])
+            sc.script += [("send", k, b" " * (tot - len(data)) + data), ("wait", k)]
+            sc.requests.append(dict(client=k, line="%s %s" % (w, b), word=w, targets=[b], mode="padded", step=len(sc.script) - 2))
+            sc.tags["padded"] = tot; sc.tags["no_replay"] = True
+        elif r < 0.7:
+            # pad one power request with leading blanks so that its last byte falls around the CP_LINEMAX boundary
+            idx = [i for i, st in enumerate(sc.script) if st[0] == "send" and st[2].split(b" ")[0] in (b"on", b"off", b"cycle", b"reset")]
+            if idx:
+                i = rng.choice(idx)
+                k, data = sc.script[i][1], sc.script[i][2]
+                tot = linemax + rng.choice([-40, -2, -1, 0, 1, 2, 3, 5, 9])
+                pad = max(0, tot - len(data))
+                sc.script[i] = ("send", k, b" " * pad + data)
+                sc.tags["padded"] = tot
+                sc.tags["no_replay"] = True      # the extracted model's List.rev-based blank stripping is quadratic: a 128 KiB line takes minutes
+        return sc
+    C04.rsim(ctx, V, exe, 120 if ctx.tier == "quick" else 4000, styles=("healthy", "healthy", "mixed"), prefix="c01w", monitors=("alive", "c01", "protocol"), gen=gen)
+    # directed: node names that are prefixes of one another (n1 / n15, t0 / t01 ...), last target cut at every position near the limit
+    scs = []
+    for j in range(12 if ctx.tier == "quick" else 200):
+        rng = ctx.rng
+        base = rng.choice(["n", "t", "node"])
+        short = base + str(rng.randint(0, 9)); long_ = short + str(rng.randint(0, 9))
+        cfg = pmgen.Config()
+        kinds = ["login", "status"] + rng.choice([["on", "off"], ["on", "off", "on_ranged", "off_ranged"], ["on_ranged", "off_ranged"]])
+        d = pmgen.Dev("d0", kinds)
+        cfg.devs.append(d); cfg.truth["d0"] = {short: short, long_: long_, base + "x": base + "x"}
+        cfg.node_lines.append(("%s,%s,%sx" % (short, long_, base), "d0", None))
+        w = rng.choice(["on", "off"])
+        data = ("%s %s\r\n" % (w, long_)).encode()
+        tot = linemax + 2 + (j % 3) - 1
+        sc = pmcheck.Scenario(cfg, [("connect",), ("wait", 0), ("send", 0, b" " * (tot - len(data)) + data), ("wait", 0)], dict(style="directed", ncli=1, padded=tot, no_replay=True))
+        sc.requests.append(dict(client=0, line="%s %s" % (w, long_), word=w, targets=[long_], mode="padded", step=2))
+        scs.append(sc)
+    pmcheck.run_batch(ctx, V, exe, scs, ["alive", "c01", "protocol"], "c01d")
 
 
 def replay(ctx, V, path):
